@@ -237,11 +237,19 @@ func run[T interface {
 	comparable
 	~int | ~string
 }](sc *Scenario, conv func(int) T, less func(a, b T) bool, ordered bool) (*core.Violation, uint64, int) {
-	input := make([]T, len(sc.Init))
+	// the caller's slice has spare capacity (like buf[:0] or a reused buffer): its
+	// whole backing array must stay untouched
+	spare := len(sc.Ops)%5 + len(sc.Init)%3
+	backing := make([]T, len(sc.Init), len(sc.Init)+spare)
 	for i, x := range sc.Init {
-		input[i] = conv(x)
+		backing[i] = conv(x)
 	}
-	snapshot := append([]T(nil), input...)
+	full := backing[:cap(backing)]
+	for i := len(sc.Init); i < len(full); i++ {
+		full[i] = conv(97 + i)
+	}
+	input := backing
+	snapshot := append([]T(nil), full...)
 	var s slices.Sorted[T]
 	if ordered {
 		s = slices.NewSortedOrdered(input...)
@@ -271,8 +279,8 @@ func run[T interface {
 			return fail(i, o, "string-mismatch:"+cat, "String()=%q want %q", got, want)
 		}
 		for j := range snapshot {
-			if input[j] != snapshot[j] {
-				return fail(i, o, "input-aliased:"+cat, "the caller's input slice changed: %v, was %v", input, snapshot)
+			if full[j] != snapshot[j] {
+				return fail(i, o, "input-aliased:"+cat, "the caller's backing array (length %d, capacity %d) changed: %v, was %v", len(input), cap(input), full, snapshot)
 			}
 		}
 		return nil
